@@ -9,7 +9,7 @@ from mc import b_tf, b_tool, b_alpha as ba
 PROPERTY = "C23"
 LEVEL = "exploration"
 META = {
-    "text": "Every network reachable from 5 base nets by <=1 (thorough <=2) deviations, in 4 equivalent representations (as built, per-unit base x100, all indices relabelled with gaps, relabelled in descending order), is solved, handed to every real toolbox transformation of the statement at every applicable target (create_continuous_bus_index / _elements_index, replace_line_by_impedance and replace_impedance_by_line single and round trip, replace_ext_grid_by_gen(slack), replace_gen_by_ext_grid, replace_ward/xward_by_internal_elements, merge_nets with a disjoint companion in both orders, select_subnet of every supplied island, drop_out_of_service_elements, drop_inactive_elements, fuse_buses over every closed z=0 bus-bus switch in both directions, merge_parallel_line), solved again, and the results of corresponding buses/elements are compared. Exhaustive within that bound, no sampling.",
+    "text": "Every network reachable from 5 base nets by <=1 (thorough <=2) deviations, in 3 (thorough 4) equivalent representations (as built, per-unit base x100, all indices relabelled with gaps; thorough also relabelled in descending order), is solved, handed to every real toolbox transformation of the statement at every applicable target (create_continuous_bus_index / _elements_index, replace_line_by_impedance and replace_impedance_by_line single and round trip, replace_ext_grid_by_gen(slack), replace_gen_by_ext_grid, replace_ward/xward_by_internal_elements, merge_nets with a disjoint companion in both orders, select_subnet of every supplied island, drop_out_of_service_elements, drop_inactive_elements, fuse_buses over every closed z=0 bus-bus switch in both directions, merge_parallel_line), solved again, and the results of corresponding buses/elements are compared. Exhaustive within that bound, no sampling.",
     "note": "Trusted: the correspondence maps in mc/b_tool.py (from return values, tag columns carried through the call, or documented behaviour) and the island computation used for select_subnet. Targets a function declines (only_valid_replace) are counted, not judged. Only pairs where both power flows converge are compared; a transformation that raises on an applicable target or makes the calculation fail is reported. ZIP loads are kept out (C01-zip).",
     "technique": "bounded exhaustive enumeration of (network, representation, toolbox transformation, target) on the real code with a metamorphic equality oracle",
     "design_ref": "DESIGN.md §3 E1, §4 C23",
@@ -64,6 +64,17 @@ def _explain(net0, t, n2=None, M=None, extra=None, opts=None, skip=()):
                 v.switch.loc[sw, "closed"] = True       # what the replacement does: the open switch disappears
                 if agrees(v, M):
                     toks.append("explained=open_line_switch_lost")
+        if t[0] in ("line2imp", "line2imp2line") and "line_index_not_0..n-1" in toks:
+            idx = list(net0.line.index) if t[1] == "all" else [t[1]]
+            if t[0] == "line2imp":
+                idx = [i for i in idx if i not in n2.line.index]       # the lines that really were replaced
+            if idx and all(0 <= int(i) < len(net0.line) for i in idx):
+                v = copy.deepcopy(net0)      # what the defect does: length/parallel of the row at POSITION label
+                for i in idx:
+                    v.line.at[i, "length_km"] = net0.line["length_km"].values[int(i)]
+                    v.line.at[i, "parallel"] = net0.line["parallel"].values[int(i)]
+                if agrees(v, M):
+                    toks.append("explained=line_label_used_as_position")
         if t[0] == "fuse":
             b1, b2 = t[1], t[2]
             v = copy.deepcopy(net0)
@@ -227,7 +238,9 @@ def gen_cases(tier):
     for b in ba.BASES:
         for devs in na.subsets(c23_menu(b), k):
             for pre in PRES:
-                if len(devs) == 2 and pre[0] == "relabel_all" and pre[1] == "gapperm":
+                if tier == "quick" and pre == ["relabel_all", "gapperm"]:
+                    continue
+                if len(devs) == 2 and pre not in (["id"], ["relabel_all", "gap"]):
                     continue
                 cases.append({"base": b, "devs": [list(d) for d in devs], "pre": pre,
                               "opts": ["ac"] if (tier == "quick" or len(devs) == 2) else ["ac", "dc"], "tier": tier})
